@@ -286,7 +286,13 @@ func stepGraphemeCluster(buf []byte, state int) ([]byte, int, int, int, bool) {
 
 func (r *GraphemeReader) nextTokenInfo(buf []byte) ([]byte, int, int, bool, int, bool, bool, bool) {
 	if r.mode == TextReadModeGrapheme {
-		return nextGraphemeTokenInfo(buf, r.state, r.forceMergeNext, r.lastWasRI)
+		// Every call starts at a cluster boundary, so start uniseg afresh. The
+		// state returned by the previous Step carries the properties of the
+		// rune that followed the previous cluster; that is not the rune at
+		// the head of the buffer when the previous cluster ended at the end of
+		// the buffered data or when control bytes were consumed by ReadByte
+		// in between (a wide character after a line feed got width 0).
+		return nextGraphemeTokenInfo(buf, -1, r.forceMergeNext, r.lastWasRI)
 	}
 	return nextRuneTokenInfo(buf, r.state, r.forceMergeNext, r.lastWasRI)
 }
